@@ -32,6 +32,7 @@ History: the spread case of this proof failed for the trees the generator emitte
 replayed on the real runtime and repaired by the helper `Q.c`, which is what `objG` models).
 -/
 import GE.Model.PathAnalysis
+import GE.Extracted.RuntimeHelpers
 
 namespace GE.PA.Guard
 open GE GE.Gen GE.PA
@@ -918,5 +919,21 @@ example : covers (.node fun k => if k = "o" then .node (fun k => if k = "a" then
       by_cases h : k = "c" <;> simp [h, covers]
     · simp [h, covers]
   · simp [h, covers]
+
+/-! ## the helpers this file models are the ones the generator emits
+
+`GE.Extracted.RuntimeHelpers` is regenerated from `group.rs` on every run.  `Z`, `qa`, `qb`, `objG` (the
+`Q.c` case) and `V.get` (`X(o)[k]`) above are the tree / value readings of exactly these texts. -/
+
+theorem helpers_as_modelled :
+    GE.Extracted.runtimeItems =
+      [("X", "function(a){return a==null?Object.create(null):a}"),
+       ("Y", "function(a){return a==null?'':String(a)}"),
+       ("Z", "function(a,b){if(a===true)return true;if(a)return a[b]}"),
+       ("P", "function(a){return typeof a==='function'?a:()=>{}}")] ∧
+    GE.Extracted.extraRuntimeItems =
+      [("a", "function(a){for(var i=0;i<a.length;i++)if(a[i])return a}"),
+       ("b", "function(b){var a=Object.values(b);for(var i=0;i<a.length;i++)if(a[i])return b}"),
+       ("c", "function(a){var b={};for(var k in a)b[k]=true;return b}")] := ⟨rfl, rfl⟩
 
 end GE.PA.Guard
